@@ -227,3 +227,57 @@ def nested_grid(r, alpha, wmax=14, hmax=8):
         w = len(rows[0])
         rows = ["+" + "-" * w + "+"] + ["|" + x + "|" for x in rows] + ["+" + "-" * w + "+"]
     return "\n".join(x.rstrip() for x in rows)
+
+
+_CAT = None
+
+
+def catalogue_art(r):
+    """one drawing of the circle catalogue or of its arc tables (three-quarter, half, quarter), as rows"""
+    global _CAT
+    import json, os
+    if _CAT is None:
+        here = os.path.dirname(os.path.abspath(__file__))
+        cat = json.load(open(os.path.join(here, "catalogue.json"), encoding="utf-8"))
+        tabs = json.load(open(os.path.join(here, "catalogue_tables.json"), encoding="utf-8"))
+        arts = [list(d) for d in cat]
+        for key in ("three_quarters", "half", "quarter"):
+            for e in tabs[key]:
+                cells = {(c[0], c[1]): chr(c[2]) for c in e["span"]}
+                hh = max(y for (_, y) in cells) + 1
+                ww = max(x for (x, _) in cells) + 1
+                arts.append(["".join(cells.get((x, y), " ") for x in range(ww)).rstrip() for y in range(hh)])
+        _CAT = arts
+    return list(r.choice(_CAT[:22]) if r.random() < 0.5 else r.choice(_CAT))
+
+
+def catalogue_scene(r, words):
+    """a catalogue circle or arc away from the origin with words written into blank cells in and around it (touching
+    it or not), and sometimes a box or a stroke attached to it, so that the drawing is recognised together with
+    other cells of its span, or only at the second attempt"""
+    D = catalogue_art(r)
+    w = max(len(x) for x in D)
+    rows = [list(x.ljust(w + 8)) for x in D]
+    mid = len(rows) // 2
+    att = r.choice(["none", "none", "stroke", "box", "circle"])
+    if att == "stroke":
+        for i in range(3):
+            rows[mid][w + i] = "-"
+    elif att == "box" and len(rows) >= 3:
+        for (dy, txt) in ((-1, "+--+"), (0, "|  |"), (1, "+--+")):
+            for i, ch in enumerate(txt):
+                rows[mid + dy][w + i] = ch
+    elif att == "circle":
+        for y, x in enumerate(D):
+            for i, ch in enumerate(x):
+                if ch != " " and w + i < len(rows[y]):
+                    rows[y][w + i] = ch
+    for wd in words:
+        for _try in range(30):
+            y, x = r.randrange(len(rows)), r.randrange(0, len(rows[0]) - len(wd))
+            if all(rows[y][x + i] == " " for i in range(len(wd))):
+                for i, ch in enumerate(wd):
+                    rows[y][x + i] = ch
+                break
+    k, n = r.randint(0, 7), r.randint(0, 3)
+    return "\n" * n + "\n".join(" " * k + "".join(x).rstrip() for x in rows)
